@@ -75,3 +75,30 @@ func pollute(op string, args []string) {
 		}
 	}
 }
+
+// priorVariants calls f once per argument with THAT argument altered and the others as they are (results
+// ignored), right before the observed call: a memo keyed on some of the arguments shows in the observed call.
+func priorVariants(args [][]byte, f func(a [][]byte)) {
+	for i := range args {
+		v := make([][]byte, len(args))
+		copy(v, args)
+		v[i] = other(args[i])
+		if len(args[i]) == 0 {
+			v[i] = []byte{0x41}
+		}
+		func() {
+			defer func() { recover() }()
+			f(v)
+		}()
+	}
+}
+
+// other returns a copy of b with one octet changed (same length)
+func other(b []byte) []byte {
+	c := append([]byte{}, b...)
+	if len(c) > 0 {
+		c[len(c)/2] ^= 0x5a
+	}
+	return c
+}
+
